@@ -218,8 +218,12 @@ func genC15() {
 			}
 			hp := callLits(fd, "strings.HasPrefix")
 			tp := callLits(fd, "strings.TrimPrefix")
+			// strings.CutPrefix(s, lit) is the HasPrefix / TrimPrefix pair in one call: test and trim literal are the same
+			if cp := callLits(fd, "strings.CutPrefix"); len(hp) == 0 && len(tp) == 0 && len(cp) == 1 && len(cp[0]) == 1 {
+				hp, tp = cp, cp
+			}
 			if len(hp) != 1 || len(hp[0]) != 1 || len(tp) != 1 || len(tp[0]) != 1 {
-				fail("%s: checksumFromHeader: expected one strings.HasPrefix and one strings.TrimPrefix with a literal", rel)
+				fail("%s: checksumFromHeader: expected one strings.HasPrefix and one strings.TrimPrefix with a literal (or one strings.CutPrefix)", rel)
 				continue
 			}
 			rows = append(rows, fmt.Sprintf("(%s, (%s, %s, %s))", coqStr(rel), coqStr(hp[0][0]), coqStr(tp[0][0]), coqStrList(sorted(sites(fd.Body)))))
